@@ -87,8 +87,15 @@ static int round_write(int r){ // several writes with interposed short writes; t
   dispatch_io_t ch=dispatch_io_create(DISPATCH_IO_STREAM,p[1],q,^(int e){ (void)e; close(p1); dispatch_semaphore_signal(cs); });
   atomic_store(&wcap,(long)(1+rnd()%4000)); atomic_store(&wcap_fd,p[1]);
   dispatch_group_t g=dispatch_group_create(); __block size_t unwritten=0; __block _Atomic int dones=0; size_t off=0;
-  for(int i=0;i<k;i++){ unsigned char *b=malloc(len[i]); for(size_t j=0;j<len[i];j++) b[j]=pat(off+j); off+=len[i];
-    dispatch_data_t d=dispatch_data_create(b,len[i],NULL,DISPATCH_DATA_DESTRUCTOR_FREE); dispatch_group_enter(g);
+  // water marks: the write path cuts the data into buffers of at most the high-water mark and reports progress by the low-water mark
+  { static const long HW[]={-1,-1,10,64,1000,4096}; long hw=HW[rnd()%6]; static const long LW[]={-1,-1,8,100,5000}; long lw=LW[rnd()%5];
+    if(hw>0) dispatch_io_set_high_water(ch,(size_t)hw); if(lw>0) dispatch_io_set_low_water(ch,(size_t)lw); }
+  for(int i=0;i<k;i++){ dispatch_data_t d=dispatch_data_empty; size_t left=len[i]; int frag = rnd()%2;
+    // fragmented data objects: regions that do not line up with the write buffers
+    while(left>0){ size_t m = frag ? 1+rnd()%(left<37?left:37+rnd()%3000) : left; if(m>left) m=left;
+      unsigned char *b=malloc(m); for(size_t j=0;j<m;j++) b[j]=pat(off+j); off+=m; left-=m;
+      dispatch_data_t piece=dispatch_data_create(b,m,NULL,DISPATCH_DATA_DESTRUCTOR_FREE); dispatch_data_t c=dispatch_data_create_concat(d,piece); dispatch_release(piece); if(d!=dispatch_data_empty) dispatch_release(d); d=c; }
+    dispatch_group_enter(g);
     dispatch_io_write(ch,0,d,q,^(bool done, dispatch_data_t rem, int err){ if(done){ if(rem) unwritten+=dispatch_data_get_size(rem); if(err) fail("write error: round/err",r,err,0); atomic_fetch_add(&dones,1); dispatch_group_leave(g);} });
     dispatch_release(d); }
   // drain
